@@ -3,6 +3,8 @@
 package cl
 
 import (
+	"strings"
+
 	"github.com/ohler55/slip"
 )
 
@@ -80,7 +82,21 @@ func (f *Intern) Call(s *slip.Scope, args slip.List, depth int) (result slip.Obj
 	vv := p.GetVarVal(string(so))
 	switch {
 	case vv == nil:
-		p.Set(string(so), slip.Unbound)
+		// A function of that name makes the symbol present already, as
+		// find-symbol reports it. Only a name the package knows nothing
+		// about is entered.
+		if fi := p.GetFunc(strings.ToLower(string(so))); fi != nil {
+			switch {
+			case fi.Pkg != p:
+				status = slip.Symbol(":inherited")
+			case fi.Export:
+				status = slip.Symbol(":external")
+			default:
+				status = slip.Symbol(":internal")
+			}
+		} else {
+			p.Set(string(so), slip.Unbound)
+		}
 	case vv.Pkg == &slip.KeywordPkg:
 		status = slip.Symbol(":external")
 	case vv.Pkg == p:
